@@ -25,7 +25,8 @@ THEOREMS = [
     "C14_regex_ast_text", "C14_move_regex_matcher", "C14_result_regex_matcher", "C14_number_regex_matcher",
     "C14_suffix_regex_sub", "C14_comment_regex_sub", "C14_space_regex_match", "C14_space_regex_split",
     "C14_tag_regex_attempt", "C14_tag_regex_findall",
-            "C14_source_format_move_eq", "C14_source_format_move_crashes", "C14_source_parse_format_move"]
+            "C14_source_format_move_eq", "C14_source_format_move_crashes", "C14_source_parse_format_move",
+            "C14_source_regex_text", "C14_source_parse_move_eq", "C14_source_parse_move_no_crash", "C14_source_parse_game_eq", "C14_source_game_ok_modelled", "C14_source_parse_move_of_format", "C14_source_parse_move_denotes", "C14_source_parse_move_refuses"]
 MODEL_TARGETS = ["model/Tak.vo", "model/Harness.vo", "model/Lit.vo", "model/Ptn.vo"]
 TRUSTED_BASE = [
     "the regex semantics of spec/RegexSpec.v (standard declarative set-of-matches semantics + a printer to Python syntax; "
@@ -1043,3 +1044,23 @@ def pregen(run):
 def correspondence(run):
     _c14_correspondence(run)
     _t14.correspondence(run)
+
+
+# ---- translator tie (T): the C14_source_* theorems quantify over functions REGENERATED FROM THE SOURCE; t14p's
+# correspondence validates the semantics library and the translation scheme on every run.
+from . import t14p as _t14p  # noqa: E402
+
+MODEL_TARGETS = sorted(set(list(MODEL_TARGETS) + list(_t14p.MODEL_TARGETS)))
+TRUSTED_BASE = list(TRUSTED_BASE) + list(getattr(_t14p, "TRUSTED_BASE", []))
+_c14_t14p_correspondence = correspondence
+_c14_t14p_pregen = pregen
+
+
+def pregen(run):
+    _c14_t14p_pregen(run)
+    return _t14p.pregen(run)
+
+
+def correspondence(run):
+    _c14_t14p_correspondence(run)
+    _t14p.correspondence(run)
